@@ -38,7 +38,8 @@ func (r *readOnlyFile) Stat() (hackpadfs.FileInfo, error) {
 }
 
 func (r *readOnlyFile) Truncate(size int64) error {
-	return r.file.Truncate(size)
+	// like ftruncate() on a file descriptor which is not open for writing
+	return &hackpadfs.PathError{Op: "truncate", Path: r.file.path, Err: hackpadfs.ErrInvalid}
 }
 
 func (r *readOnlyFile) ReadDir(n int) ([]hackpadfs.DirEntry, error) {
